@@ -107,6 +107,10 @@ def run(prog: Program, res: Result, tier: str) -> None:
             "R3", fn, fn.node, ("per channel: load sums, one update + min/max per sample in time order, single write-back; min/max "
                                 "initialised from sample 0 when startflag == 0; " if verdict == "same" else "") + ("; ".join(why))[:500],
             construct=name, key=f"kernel:{name}")
+    # chunked feeding: push_data forwards the block index as the first-chunk flag to both kernels, and the streaming
+    # callers pass the block index (shared with C06.R5)
+    from .c06 import check_push_data
+    check_push_data(prog, res, "R3")
     cs = prog.cls(STATS, "ChannelStats")
     add = cs.methods.get("__add__")
     if add is None:
@@ -158,7 +162,7 @@ def run(prog: Program, res: Result, tier: str) -> None:
                          "numba evaluates the recurrences in the written statement order"]
     res.floor("R1", 8)
     res.floor("R2", 20 if tier == "thorough" else 19)
-    res.floor("R3", 7)
+    res.floor("R3", 11)
     res.floor("R4", 7)
 
 
